@@ -356,6 +356,207 @@ class _Iterable:
         return _Iter(self.items)
 
 
+# ---- add_path for paths of any length: loop invariant -----------------------------------------------
+pkind = T.uf("path.kind", [T.INT], T.INT)  # 0: a Node, 1: a Link, 2: anything else
+half = T.uf("path.half", [T.INT], T.INT)
+KIND = {"Node": 0, "Link": 1}
+
+
+class PItem:
+    """the j-th item of a path of symbolic length and content"""
+
+    def __init__(self, j):
+        self.j = T.lift(j, T.INT)
+
+    def pyvc_isinstance(self, interp, cls):
+        nm = getattr(cls, "name", None)
+        if nm in KIND:
+            return T.eq(pkind(self.j), KIND[nm])
+        raise Unsupported(f"isinstance of a path item against {cls!r}")
+
+    def pyvc_getattr(self, interp, name):
+        if name == "name":
+            return SymName(("path-item", self.j))
+        raise Unsupported(f"attribute {name} of a path item")
+
+    def __repr__(self):
+        return f"<item {self.j!r}>"
+
+
+def alternates(j):
+    """item j has the kind its position demands: Node at even, Link at odd positions"""
+    j = T.lift(j, T.INT)
+    cur().axiom(T.or_(T.eq(j, 2 * half(j)), T.eq(j, 2 * half(j) + 1)))  # every integer is even or odd
+    return T.or_(T.and_(T.eq(j, 2 * half(j)), T.eq(pkind(j), 0)), T.and_(T.eq(j, 2 * half(j) + 1), T.eq(pkind(j), 1)))
+
+
+def add_path_invariant_task(with_origin, with_dest):
+    label = f"any length,origin={with_origin},destination={with_dest}"
+
+    def run(interp, c):
+        from pyvc.interp import _SymIter
+        from pyvc.loops import _child_env
+        from pyvc.ctx import Infeasible
+
+        net, K = new_network(interp)
+        fn, _ = K.lookup("add_path")
+        interp.inline_only.add(fn.qualname)
+        log = []
+        for m_ in ("add_node", "add_link", "add_origin", "add_destination", "add_nodes", "add_links"):
+            interp.contracts[f"{NETQ}:Network.{m_}"] = PathEvents(m_, log)
+        n = T.var("len.path", T.INT)
+        c.axiom(T.le(0, n))
+        seq = SSeq(n, lambda j: PItem(j), "path")
+        o = origin(interp, "o") if with_origin else None
+        d = dest(interp, "d") if with_dest else None
+        mode = {}
+
+        def rule(it, node, lseq, env):
+            """the loop of add_path: inv-init, inv-step (one generic iteration of either parity), and
+            the summary used by the code after the loop"""
+            m = lseq.n  # = n - 1 items remain after the first
+            cl0 = env.vars.get("current_link")
+            okinit = isinstance(cl0, list) and len(cl0) == 1 and isinstance(cl0[0], PItem) and cl0[0].j is T.const(0, T.INT) \
+                and env.vars.get("longer_than_one") is False
+            c.oblige("inv", "init: before the loop current_link is [first node] and longer_than_one is False", T.const(okinit), assume_after=False)
+            step = T.fresh("verify_generic_iteration", T.BOOL)
+            if c.decide(step, "add_path loop: verify one generic iteration (else: use the loop summary)"):
+                mode["kind"] = "step"
+                k = T.fresh("k", T.INT)  # position of the last item consumed so far (0 = the first node)
+                c.assume(T.and_(T.le(0, k), T.lt(k, T.sub(n, 1))))
+                even = T.fresh("k_even", T.BOOL)
+                e2 = _child_env(it, env)
+                e2.vars.update(env.vars)
+                alternates(k)
+                alternates(T.add(k, 1))
+                if c.decide(even, "k even"):
+                    c.assume(T.and_(T.eq(k, 2 * half(k)), T.eq(pkind(k), 0)))  # invariant at k
+                    e2.vars["current_link"] = [PItem(k)]
+                    expect_events = []
+                else:
+                    km1 = T.sub(k, 1)
+                    c.assume(T.and_(T.eq(k, 2 * half(k) + 1), T.eq(pkind(k), 1), T.eq(pkind(km1), 0)))
+                    e2.vars["current_link"] = [PItem(km1), PItem(k)]
+                    expect_events = ["add_node", "add_link"]
+                e2.vars["longer_than_one"] = T.fresh("longer_than_one", T.BOOL)
+                nxt = T.add(k, 1)
+                it.assign(node.target, (k, PItem(nxt)), e2)
+                mark = len(log)
+                raised = None
+                try:
+                    it.exec_block(node.body, e2)
+                except PyRaise as e:
+                    raised = e.exc
+                mode["done"] = True
+                if raised is not None:
+                    c.oblige("inv", f"step: the loop raises only TypeError (got {raised.cls_name})", T.const(raised.cls_name == "TypeError"), assume_after=False)
+                    c.oblige("inv", "step: it raises only at an item whose kind breaks the node-link alternation", T.not_(alternates(nxt)), assume_after=False)
+                    c.oblige("inv", "step: nothing is added to the graph by an iteration that raises", T.const(len(log) == mark), assume_after=False)
+                else:
+                    c.oblige("inv", "step: an iteration that does not raise consumed an item of the right kind", alternates(nxt), assume_after=False)
+                    new = e2.vars.get("current_link")
+                    if c.decide(T.eq(nxt, 2 * half(nxt)), "next position even"):
+                        good = isinstance(new, list) and len(new) == 1 and isinstance(new[0], PItem) and new[0].j is nxt
+                        c.oblige("inv", "step: after an even position current_link is [that node]", T.const(good), assume_after=False)
+                    else:
+                        good = isinstance(new, list) and len(new) == 2 and all(isinstance(x, PItem) for x in new) and new[1].j is nxt
+                        c.oblige("inv", "step: after an odd position current_link is [previous node, that link]", T.const(good), assume_after=False)
+                        if good:
+                            c.oblige("inv", "step: ... and the previous node is the item before", T.eq(new[0].j, k), assume_after=False)
+                    c.oblige("inv", "step: longer_than_one is set", T.const(e2.vars.get("longer_than_one") is True), assume_after=False)
+                    ev = log[mark:]
+                    names = [w for w, a, kw in ev]
+                    c.oblige("inv", f"step: the iteration adds {expect_events or 'nothing'} to the graph", T.const(names == expect_events), assume_after=False)
+                    if names == ["add_node", "add_link"]:
+                        an, al = ev[0][1], ev[1][1]
+                        good = len(an) == 1 and isinstance(an[0], PItem) and an[0].j is nxt
+                        c.oblige("inv", "step: the node added is the item just consumed (a Node)", T.const(good), assume_after=False)
+                        good = len(al) == 3 and all(isinstance(x, PItem) for x in al) and al[1].j is k and al[2].j is nxt
+                        c.oblige("inv", "step: the link added is the previous item, between its two neighbours in path order", T.const(good), assume_after=False)
+                        if good:
+                            c.oblige("inv", "step: ... upstream node is the item before the link", T.eq(al[0].j, T.sub(k, 1)), assume_after=False)
+                raise Infeasible()  # a verification-only path ends here
+            # ---- summary (justified by inv-init and inv-step): the loop raises TypeError at the first item
+            # breaking the alternation, otherwise consumes everything
+            mode["kind"] = "summary"
+            bad = T.fresh("some_item_breaks_alternation", T.BOOL)
+            w = T.fresh("w", T.INT)
+            c.axiom(T.implies(bad, T.and_(T.le(1, w), T.lt(w, n), T.not_(alternates(w)))))
+            if c.decide(bad, "some item breaks the alternation"):
+                from pyvc.values import ExcValue
+
+                mode["w"] = w
+                raise PyRaise(ExcValue("TypeError", ("alternation",)))
+            c.assume_forall(n, lambda j: T.implies(T.le(1, j), alternates(j)))
+            if c.decide(T.lt(0, m), "the path has more than one item"):
+                env.vars["longer_than_one"] = True
+                lastj = T.sub(n, 1)
+                c.axiom(T.implies(T.le(1, lastj), alternates(lastj)))
+                env.vars["point"] = PItem(lastj)
+                env.vars["i"] = T.sub(m, 1)
+
+        interp.loop_rules = {(fn.qualname, 0): rule}
+        raised = None
+        try:
+            r = interp.call(BoundMethod(fn, net), [_PathIterable(seq)], dict(origin=o, destination=d))
+        except PyRaise as e:
+            raised, r = e.exc, None
+        if mode.get("kind") == "step":
+            return
+        # ---- postcondition on the summary paths
+        wf = T.and_(T.le(3, n), T.eq(T.sub(n, 1), 2 * half(T.sub(n, 1))))  # odd length >= 3 ...
+        j = c.fresh_index(n, "j")
+        if raised is not None:
+            # rejected: then the path is malformed: too short, even length, or some item of the wrong kind
+            w_ = mode.get("w")
+            c.oblige("post", "a path is rejected only if it is malformed: shorter than 3 items, first or last item not a Node, or an item whose kind breaks the node-link alternation",
+                     T.or_(T.lt(n, 3), T.ne(pkind(0), 0), T.ne(pkind(T.sub(n, 1)), 0), T.not_(alternates(w_)) if w_ is not None else T.FALSE), assume_after=False)
+            c.oblige("post", f"a rejected path raises an error ({raised.cls_name})", T.const(raised.cls_name in ("TypeError", "ValueError", "StopIteration")), assume_after=False)
+            for what, a_, kw in log:
+                if what in ("add_origin", "add_destination"):
+                    c.oblige("post", f"{what} is only ever attached to a Node item", T.eq(pkind(a_[1].j), 0) if isinstance(a_[1], PItem) else T.FALSE, assume_after=False)
+                if what == "add_node":
+                    c.oblige("post", "only Node items are added as nodes", T.eq(pkind(a_[0].j), 0) if isinstance(a_[0], PItem) else T.FALSE, assume_after=False)
+            return
+        c.oblige("post", "an accepted path has at least three items", T.le(3, n), assume_after=False)
+        c.oblige("post", "an accepted path starts with a Node", T.eq(pkind(0), 0), assume_after=False)
+        c.oblige("post", "an accepted path ends with a Node", T.eq(pkind(T.sub(n, 1)), 0), assume_after=False)
+        c.oblige("post", "every item of an accepted path has the kind its position demands", T.implies(T.le(1, j), alternates(j)), assume_after=False)
+        c.oblige("post", "add_path returns the network itself", T.const(r is net), assume_after=False)
+        names = [w_ for w_, a, kw in log]
+        exp = ["add_node"] + (["add_origin"] if o is not None else []) + (["add_destination"] if d is not None else [])
+        c.oblige("post", "outside the loop add_path adds the first node, then the origin at it, and finally the destination", T.const(names == exp), assume_after=False)
+        if names == exp:
+            a0 = log[0][1]
+            c.oblige("post", "the first node added is the first item", T.const(len(a0) == 1 and isinstance(a0[0], PItem) and a0[0].j is T.const(0, T.INT)), assume_after=False)
+            if o is not None:
+                ao = log[1][1]
+                c.oblige("post", "the origin is attached to the first item", T.const(ao[0] is o and isinstance(ao[1], PItem) and ao[1].j is T.const(0, T.INT)), assume_after=False)
+            if d is not None:
+                ad = log[-1][1]
+                good = ad[0] is d and isinstance(ad[1], PItem)
+                c.oblige("post", "the destination is attached to a path item", T.const(good), assume_after=False)
+                if good:
+                    c.oblige("post", "... namely the last item", T.eq(ad[1].j, T.sub(n, 1)), assume_after=False)
+
+    return Task(f"{NETQ}:Network.add_path<{label}>", run, props=("C09",), func=f"{NETQ}:Network.add_path", config=label)
+
+
+class _PathIterable:
+    def __init__(self, seq):
+        self.seq = seq
+
+    def pyvc_iter_obj(self, interp):
+        from pyvc.interp import _SymIter
+
+        return _SymIter(self.seq)
+
+    def pyvc_iter(self, interp):
+        from pyvc.interp import _SymbolicIterationNeeded
+
+        raise _SymbolicIterationNeeded(self.seq)
+
+
 def add_path_tasks():
     out = []
     for n in range(0, PATH_BOUND + 1):
@@ -369,6 +570,7 @@ def add_path_tasks():
 
 def all_tasks():
     out = property_tasks() + views_tasks()
+    out += [add_path_invariant_task(a, b) for a in (False, True) for b in (False, True)]
     for m in MUTATORS:
         out.append(mutator_task(m, ()))
         out.append(mutator_task(m, tuple(CACHED)))
